@@ -419,6 +419,10 @@ def simplifier(rec):
     return out
 
 
+def evidence_extra(total):
+    return {"sampler_calls_by_mode": {k[5:]: v for k, v in sorted(total["extra"].items()) if k.startswith("mode:")}}
+
+
 def run_one(prop, seed, faults, want_events=False):
     run, records, viol, cfg = generate_and_run(seed, keep_events=want_events)
     exact = sum(v for k, v in run.probes.items() if k.startswith("exact_prediction_checked"))
